@@ -280,6 +280,8 @@ def run(ctx):
         'the optimizer preserves markers (shared with C08)',
         'statement positions are stamped and shifted consistently',
         'innermost-range lookup shape',
+        'child_fields lists every node-valued attribute (position fix-up '
+        'and pass walk reach every statement)',
     ]
     ctx.not_decided = ['that the recorded line/extract is the text that '
                        'produced the instruction; nesting of ranges; '
@@ -290,6 +292,8 @@ def run(ctx):
     source_positions(ctx)
     find_stmt_shape(ctx)
     record_synthesis(ctx)
+    from .. import grammar_shapes
+    grammar_shapes.check_child_fields(ctx, 'C11')
     if ctx.tier == 'thorough' or True:
         try:
             from .. import gensim
